@@ -66,6 +66,11 @@ CLAIMED = {
         text="Per instantiation backup<probe<S,N,T,M>> the path condition of the single backend query and every output component are evaluated on all 13^N products of weak orderings of (c_i,lo_i,hi_i): "
              "queried iff inside the closed box; outputs routed from backend value or default. Complete for all coordinate values since inputs are touched only by comparisons.",
         note="quick: 11 instantiations N<=3; thorough: N,M in 1..4 x 5 coordinate types; NaN excluded"),
+    "C12": dict(
+        level="other", design="5/C12", technique="representation-invariant argument: token scan for allocation outside unique_ptr, D-route analysis of the array backend's copy operations (allocation, copied bytes, members, self-assignment ordering, returned reference), trivially-copyable witnesses for wrapper layers, conversion sizing rules",
+        text="Histories are covered by an invariant every operation preserves: each owning object exclusively owns a buffer of exactly m_size elements. Decided per operation from IR/AST/witnesses; "
+             "since only array::owning_data_t manages memory (everything else is memberwise over it), exact deep copy + guarded self-assignment + correctly sized conversions give independence of values, no leak and no double free under any sequence.",
+        note="user-chosen view lifetimes and use of moved-from fields are not decided; unique_ptr contract trusted"),
     "C13": dict(
         level="exploration", design="5/C13", technique="compile witnesses (must-compile and must-fail programs over a generated stack grammar, decided by g++ -fsyntax-only)",
         text="Generated programs: every API operation of every stack in the universe must type-check (explicit instantiation forces all non-template member bodies), conversions between compatible stacks must type-check, "
